@@ -10,7 +10,7 @@
                 yields no rejection, for several prior contents of the caller's memory being irrelevant by COMPLETE
 """
 from engine.facts import pstr, strip, callee_name, subexprs, fields_in, last_field, root_of, AnalysisBroken
-from engine.cinterp import Machine, V, Unknown, Unsupported
+from engine.cinterp import Machine, V, Unknown, Unsupported, UB
 
 PID = 'C13'
 
@@ -208,6 +208,9 @@ def run(P, rep, tier):
         except Unknown as e:
             rep.ob('C13.ACCEPTED', 'prior=0x%02X/defaults-accepted' % prior, False, d.loc(),
                    'evaluation needs a value the defaults do not define: %s' % e)
+        except UB as e:
+            rep.ob('C13.ACCEPTED', 'prior=0x%02X/defaults-accepted' % prior, False, d.loc(),
+                   'evaluating copy/verify on the returned defaults hits undefined behaviour: %s' % e)
         except Unsupported as e:
             raise AnalysisBroken('configuration code left the evaluator\'s language: %s' % e)
     rep.floor('C13.ACCEPTED', 3)
